@@ -125,10 +125,29 @@ def monitor(script, c):
     return hits
 
 
+def corpus_setroc_zero():
+    """known finding: set_roc(0) on a ROC-0 stream just before the sequence number wraps"""
+    ssrc = 0xcafebabe
+    p = default_policy(random.Random(16016), ssrc)
+    L = [p.line(1), "create 1 1", "create 2 1"]
+    def send(seqv):
+        pkt = rtp_packet(ssrc, seqv & 0xffff, payload=bytes([seqv & 0xff] * 8))
+        L.append(pkt_op("protect", 1, pkt, cap=len(pkt) + 20, mode=0))
+        a = len(L)
+        L.append(pkt_op("unprotect", 2, f"@{a:x}", cap=len(pkt) + 20, mode=0))
+        L.append(f"getroc 1 {H(ssrc)}"); L.append(f"getroc 2 {H(ssrc)}")
+    send(0xffff)
+    L.append(f"setroc 1 {H(ssrc)} 0"); L.append(f"setroc 2 {H(ssrc)} 0")
+    for q in (4, 5, 6):
+        send(q)
+    L.append(f"setroc 1 {H(ssrc ^ 1)} 5"); L.append(f"getroc 1 {H(ssrc ^ 1)}")
+    return "\n".join(L) + "\n"
+
+
 def families(tier, seed):
     rng = random.Random(seed * 1000 + 16)
     n = 10 if tier == "quick" else 120
-    scripts = []
+    scripts = [("corpus-setroc-zero", corpus_setroc_zero())]
     for k in range(n):
         txt, behind = scenario(rng, k, tier)
         scripts.append((f"setroc-{k}", txt))
